@@ -220,3 +220,66 @@ def adjust_timezone_pure(has_tz: bool, oi: int, zi: int, ii: int) -> bool:
             return False
     r = L(T_ADJ['again'].evaluate(ctx()))
     return str(r[0]) == snap[0] and str(r[2]) == snap[0]
+
+
+# --- added after round-2 seeded changes: stored sequences are not extended in place; closures are lexically scoped --------------------
+
+T3 = parse_all({
+    'map_seq': "let $m := map{'a': ($a, $b)}, $n := map:put($m, 'a', ($m('a'), $c)) return (count($m('a')), count($n('a')), $m('a'), $n('a'))",
+    'arr_seq': "let $r := [($a, $b), $c], $s := ($r(1), $c), $t := (array:get($r, 1), $s) return (count($r(1)), count($s), count($t), $r(1))",
+    'map_get': "let $m := map{1: ($a, $b), 2: ()} return (count((map:get($m, 1), $c)), count((map:get($m, 2), $c, $c)), count($m(1)), count($m(2)))",
+    'mk_map': "map{'a': ($a, $b), 'e': ()}", 'mk_arr': "[($a, $b), ()]",
+    'use_map': "(count(($m('a'), $c)), count(($m('e'), $c)), $m('a'), count($m('e')))",
+    'use_arr': "(count(($m(1), $c)), count(($m(2), $c)), $m(1), count($m(2)))",
+    'closure_let': 'let $x := $a, $f := function() { $x } return (let $x := $b return $f(), for $x in ($b, $k) return $f(), $x)',
+    'closure_param': 'let $x := $a, $f := function($y) { $x + $y }, $g := function($x) { $f($x) } return ($g($b), (some $x in ($k) satisfies $f(0) = $x), $x)',
+    'closure_caller': 'let $f := function() { $x } return (let $x := $b return $f(), $x)',
+})
+
+
+@ob(budget=120, bound='all integer values: a sequence stored in a map/array built by the expression, used as first operand of the comma operator',
+    funcs=[O2 + ':evaluate__comma_operator', 'elementpath/xpath_tokens/maps.py', 'elementpath/xpath_tokens/arrays.py'])
+def stored_sequence_not_extended(a: int, b: int, c: int) -> bool:
+    """
+    post: _
+    """
+    v = {'a': a, 'b': b, 'c': c}
+    r1, ok1 = _run(T3['map_seq'], v)
+    r2, ok2 = _run(T3['arr_seq'], v)
+    r3, ok3 = _run(T3['map_get'], v)
+    return (r1 == [2, 3, a, b, a, b, c] and r2 == [2, 3, 5, a, b] and r3 == [3, 2, 2, 0] and ok1 and ok2 and ok3
+            and _run(T3['map_seq'], v)[0] == r1 and _run(T3['arr_seq'], v)[0] == r2)
+
+
+@ob(budget=120, bound='all integer values: a map / array item passed in by the caller as a variable, read by two evaluations of one token',
+    funcs=[O2 + ':evaluate__comma_operator', 'elementpath/xpath_tokens/maps.py:XPathMap.__call__', 'elementpath/xpath_tokens/arrays.py:XPathArray.__call__'])
+def caller_map_and_array_unchanged(a: int, b: int, c: int) -> bool:
+    """
+    post: _
+    """
+    m = T3['mk_map'].evaluate(XPathContext(item=1, variables={'a': a, 'b': b}))
+    r = T3['mk_arr'].evaluate(XPathContext(item=1, variables={'a': a, 'b': b}))
+    if isinstance(m, list):
+        m = m[0]
+    if isinstance(r, list):
+        r = r[0]
+    for tok, item in ((T3['use_map'], m), (T3['use_arr'], r)):
+        v = {'m': item, 'c': c}
+        for _ in range(2):
+            got, ok = _run(tok, v)
+            if got != [3, 1, a, b, 0] or not ok or v['m'] is not item:
+                return False
+    return True
+
+
+@ob(budget=120, bound='all integer values: a function item called inside let / for / some / another function that re-binds the captured name',
+    funcs=['elementpath/xpath30/_xpath30_functions.py:_InlineFunction.__call__', 'elementpath/xpath_context.py'])
+def closure_lexically_scoped(a: int, b: int, k: int, x: int) -> bool:
+    """
+    post: _
+    """
+    v = {'a': a, 'b': b, 'k': k, 'x': x}
+    r1, ok1 = _run(T3['closure_let'], v)
+    r2, ok2 = _run(T3['closure_param'], v)
+    r3, ok3 = _run(T3['closure_caller'], v)
+    return r1 == [a, a, a, a] and r2 == [a + b, a == k, a] and r3 == [x, x] and ok1 and ok2 and ok3
